@@ -29,7 +29,8 @@ func init() {
 		ID:    "C10",
 		Level: "exploration",
 		Rule: "programs that print, enumerate, compare and serialise maps (>=8 keys, mixed spellings), closures, errors embedding values and function names, nested containers, schema validators, json dumps, gensyms, help output, plus generated core programs; each is run once in a fresh runtime, then in 4 concurrent fresh runtimes after unrelated prior activity (race-detector build), " +
-			"and (driver phase) a fixed sub-list is re-run in 4 separate processes with different GOMAXPROCS, GOGC and prior activity; all transcripts must be byte-identical. distinct_nontrivial counts distinct (template-or-feature, outcome class) signatures with >= 5 steps",
+			"and (driver phase) a fixed sub-list is re-run in 4 separate processes with different GOMAXPROCS, GOGC and prior activity; " +
+			"and (driver phase, c10_earlier.go) programs calling every library package with invalid and valid inputs passed as strings (fresh per case), plus programs of the main list, run in 7 processes: alone, alone in reverse order, and after / behind / beside decoys derived from the program's own text (wrapped in a function under a swallowing handler, shifted, loaded under another stream name) that make the same library calls first from other call sites in another runtime; all transcripts must be byte-identical. distinct_nontrivial counts distinct (template-or-feature, outcome class) signatures with >= 5 steps",
 		Assumptions: []string{
 			"time:utc-now, time:time-elapsed, time:sleep and file loading are excluded by construction, as the property allows",
 			"a map-order leak is probabilistic per run: programs use >=8 keys and 5+4 comparisons per program",
@@ -153,12 +154,17 @@ var c10CapTemplates = []string{
 	";;c10:maxalloc=64\n(list (ignore-errors (make-sequence 0 100)) (handler-bind ((condition (lambda (c &rest a) a))) (concat 'vector (make-sequence 0 40) (make-sequence 0 40))))",
 }
 
-func c10Transcript(src string) string {
+// c10Opts is the configuration a source runs under (directive on its first line).
+func c10Opts(src string) rt.Opts {
 	o := rt.Opts{MaxSteps: 600_000}
 	if strings.HasPrefix(src, ";;c10:maxalloc=") {
 		fmt.Sscanf(src, ";;c10:maxalloc=%d", &o.MaxAlloc)
 	}
-	r := rt.New(o)
+	return o
+}
+
+func c10Transcript(src string) string {
+	r := rt.New(c10Opts(src))
 	t, v := r.RunV("c10", src)
 	var sb strings.Builder
 	fmt.Fprintf(&sb, "value=%s\nerr=%v cond=%s\nmsg=%s\nstderr=%s\nsteps=%d\ntrace=%s\n", t.Value, t.IsErr, t.Cond, t.Msg, t.Stderr, t.Steps, t.TraceString())
@@ -271,6 +277,9 @@ func (s c10Seeder) RNG(idx int, sub string) *fw.RNG { return fw.NewRNG(s.seed, "
 
 // c10Aux: print "idx hash" for the first n cases, after `prior` rounds of unrelated activity.
 func c10Aux(args []string) int {
+	if args[0] == "earlier" {
+		return c10EarlierAux(args[1:])
+	}
 	n, _ := strconv.Atoi(args[0])
 	prior, _ := strconv.Atoi(args[1])
 	seed, _ := strconv.ParseInt(os.Getenv("VERIF_SEED"), 10, 64)
@@ -292,6 +301,8 @@ func c10Aux(args []string) int {
 }
 
 func c10Driver(d *fw.D) {
+	// the earlier-different-program family (c10_earlier.go) runs its processes meanwhile
+	defer c10EarlierStart(d)()
 	n := pick(d.Tier, 400, 6000)
 	confs := []struct {
 		name  string
